@@ -59,7 +59,7 @@ def check(run):
             inp = {"s1": s1, "s2": s2, "lead": list(lead), "grid": [nt, nph]}
             binops = [("multiply", np.multiply, s1 + s2), ("divide", np.divide, s1 - s2), ("true_divide", np.true_divide, s1 - s2)]
             for name, uf, sp in binops:
-                for form in ("ufunc", "operator", "method", "out=", "in-place"):
+                for form in ("ufunc", "operator", "method", "out=", "in-place", "out=second-operand"):
                     site = f"Grid.{name}[{form}]"
                     want = uf(a1, a2)
                     try:
@@ -74,6 +74,13 @@ def check(run):
                             r = uf(g1, g2, out=o)
                             if r is not o and not np.shares_memory(r, o):
                                 v("out-not-returned", site, inp, "out", "other array")
+                        elif form == "out=second-operand":
+                            if a2.shape != np.broadcast_shapes(a1.shape, a2.shape):
+                                continue
+                            h2 = g2.copy()
+                            r = uf(g1, h2, out=h2)
+                            if h2.spin_weight != sp:
+                                v("wrong-spin-weight", site, inp, sp, h2.spin_weight)
                         else:
                             if a1.shape != np.broadcast_shapes(a1.shape, a2.shape):
                                 continue
